@@ -28,18 +28,20 @@ UNITS = {
 PROPS = {
     "C01": dict(units=["comm", "builder"], tagged_units=["builder"], kani=["w_poll_passthrough"], level="proof",
                 bounded_scenarios=[("c02_exchange_model", "83 exchanges through the real crate: 5 child behaviours (cat, dd bs=1000, dd bs=70000, tee to stderr, slow reader) x 8 input sizes (0 .. 300000), 18 size-limit runs (6 limits x 3 sizes, two streams), 23 byte patterns (valid text, multi-byte sequences cut short at the end, invalid bytes) through read_string against String::from_utf8_lossy, one resumed time-limited exchange; a watchdog turns a hang into a failure")]),
-    "C02": dict(units=["comm", "builder"], tagged_units=["builder"], kani=[], level="proof",
+    "C02": dict(units=["comm", "builder"], tagged_units=["builder"], kani=["w_poll_passthrough"], level="proof",
                 bounded_scenarios=[("c02_exchange_model", "83 exchanges through the real crate: 5 child behaviours (cat, dd bs=1000, dd bs=70000, tee to stderr, slow reader) x 8 input sizes (0 .. 300000), 18 size-limit runs (6 limits x 3 sizes, two streams), 23 byte patterns (valid text, multi-byte sequences cut short at the end, invalid bytes) through read_string against String::from_utf8_lossy, one resumed time-limited exchange; a watchdog turns a hang into a failure")]),
-    "C03": dict(units=["comm"], kani=[], level="proof",
+    "C03": dict(units=["comm"], kani=["w_poll_passthrough"], level="proof",
                 bounded_scenarios=[("c02_exchange_model", "83 exchanges through the real crate: 5 child behaviours (cat, dd bs=1000, dd bs=70000, tee to stderr, slow reader) x 8 input sizes (0 .. 300000), 18 size-limit runs (6 limits x 3 sizes, two streams), 23 byte patterns (valid text, multi-byte sequences cut short at the end, invalid bytes) through read_string against String::from_utf8_lossy, one resumed time-limited exchange; a watchdog turns a hang into a failure")]),
     "C04": dict(units=["comm"], kani=["w_poll_passthrough"], level="proof",
                 bounded_scenarios=[("c02_exchange_model", "83 exchanges through the real crate: 5 child behaviours (cat, dd bs=1000, dd bs=70000, tee to stderr, slow reader) x 8 input sizes (0 .. 300000), 18 size-limit runs (6 limits x 3 sizes, two streams), 23 byte patterns (valid text, multi-byte sequences cut short at the end, invalid bytes) through read_string against String::from_utf8_lossy, one resumed time-limited exchange; a watchdog turns a hang into a failure")]),
-    "C05": dict(units=["spawn"], kani=["w_make_standard_stream", "w_dup2", "w_pipe", "w_set_inheritable"], level="proof"),
-    "C06": dict(units=["spawn", "exec", "builder"], kani=["w_fork_ids", "w_os_to_cstring_b4"], level="proof",
+    "C05": dict(units=["spawn"], kani=["w_make_standard_stream", "w_dup2", "w_pipe", "w_set_inheritable"], level="proof",
+                bounded_scenarios=[("c05_wiring", "all 125 settings of (stdin, stdout, stderr) over {inherit, pipe, file, shared file, merge} through the real crate: the child reports where its descriptors 0..2 point (/proc), compared with the parent's own streams, the inode of the pipe end exposed on the Popen, the file's path, the other stream; the 45 documented invalid settings must be refused without starting anything")]),
+    "C06": dict(units=["spawn", "exec", "builder"], kani=["w_fork_ids", "w_os_to_cstring_b4", "w_chdir"], level="proof",
                 bounded_scenarios=[("c15_path_lookup", "the explicit-executable cases of the PATH lookup scenario: argv[0] is what was given while the named executable is what runs, with and without slashes in either")],
                 natives=[("units/native/format_env.nt.rs", "9331 environment lists: all lists of 0..5 entries over the names {A,B,CC} and the values {empty, x}"),
                          ("units/native/cvec.nt.rs", "11132 argument vectors: 0..3 strings of length 0..3 (pairs/triples 0..2) over the bytes {a, /, NUL, 0xff}; pointer table read back through raw pointers")]),
-    "C07": dict(units=["spawn", "exec"], kani=["w_pipe", "w_fork_ids"], level="proof"),
+    "C07": dict(units=["spawn", "exec"], kani=["w_pipe", "w_fork_ids", "w_waitpid"], level="proof",
+                bounded_scenarios=[("c07_launch_failures", "58 launches through the real crate: 9 kinds of unstartable program / working directory x {pipes, no pipes} x {detached, not}, descriptor exhaustion at 12 RLIMIT_NOFILE settings, and chdir / setpgid / setgid / setuid / dup2 / fork made to fail by strace fault injection; the error must carry the errno of the failed step, no child may be left running or unreaped, no descriptor left open")]),
     "C15": dict(units=["exec", "splitpath"], kani=["b_split_path_b3"], level="proof",
                 bounded_scenarios=[("c15_path_lookup", "202 lookups on a real file system: all 64 placements of {nothing, non-executable file, directory, executable} under 3 PATH directories x 3 PATH spellings (plain, with empty and duplicate entries), 6 slash / explicit-executable cases, a name that exists only in the child's cwd (ENOENT), a non-executable only candidate (EACCES), and a child environment whose PATH differs from the parent's")]),
     "C17": dict(units=["spawn", "exec"], kani=["w_chdir"], level="proof",
@@ -48,10 +50,11 @@ PROPS = {
                 natives=[("units/native/wincmd.nt.rs", "28907 argument vectors: 1 argument of length 0..4, pairs (length 0..2, first 400 of length 0..4) and triples of length 0..2 over the alphabet {a, space, tab, newline, double quote, backslash, U+00E9}; 57 arguments containing NUL")]),
     "C19": dict(units=["quote"], kani=[], level="proof",
                 bounded_scenarios=[("c19_shell_roundtrip", "1778 argument vectors (1-2 arguments of length 0..3 over the alphabet a,space,',\",$,*,\\,newline,e-acute, plus 24 hand-picked strings) printed through Debug and evaluated by the real /bin/sh; the Debug output of pipelines of 2..5 commands in every composition shape (iterator, left-nested |, pipeline | pipeline)")]),
-    "C18": dict(units=["spawn"], kani=["w_reset_sigpipe"], level="proof"),
+    "C18": dict(units=["spawn"], kani=["w_reset_sigpipe"], level="proof",
+                bounded_scenarios=[("c18_signal_state", "84 children through the real crate: 4 signal masks blocked in the spawning thread x parent SIGPIPE {ignored, default, handled} x {bare name, absolute path, explicit executable, Exec::shell, first / middle / last pipeline stage}; SigBlk must be empty and SIGPIPE not ignored in /proc/$$/status")]),
     "C12": dict(units=["builder", "pstate"], kani=["w_reset_sigpipe"], level="proof",
                 bounded_scenarios=[("c12_handle_cleanup", "45 owning handles through the real crate: dropped Popen, join, capture of a command and of a pipeline against 6 child behaviours (cat; ignores input; closes stdin early then writes 300000 bytes to stdout / to stderr; floods stderr then cat; closes its outputs early and keeps working) x 3 input sizes (none, 20, 1000000 bytes), the five stream adapters dropped early; each must return within seconds and leave no child running or unreaped")]),
-    "C13": dict(units=["builder"], kani=[], level="proof",
+    "C13": dict(units=["builder"], kani=["w_dup2", "w_pipe"], level="proof",
                 bounded_scenarios=[("c13_pipeline_shapes", "14 pipelines: 2..5 stages in every composition shape (iterator, left-nested |, pipeline|pipeline, Pipeline|Exec) through the real crate and sh; join/capture against a first stage that closes its streams and keeps working")]),
     "C14": dict(units=["builder"], kani=[], level="proof",
                 bounded_scenarios=[("c14_partial_failure", "123 failing pipelines: n = 2..4 `cat` stages, every failing position, stdin null/pipe/data, popen/join/capture/communicate/stream_stdout/stream_stdin, and for capture/communicate also started commands that first write 300000 bytes to their stderr; promptness, no child left, descriptor count")]),
@@ -59,9 +62,11 @@ PROPS = {
                 kani=["r_exec_stdin_refuses", "r_exec_stdout_refuses", "r_exec_stderr_refuses", "r_exec_terminators_refuse_data", "w_exec_stdin_accepts"], level="proof"),
     "C08": dict(units=["spawn", "builder"], kani=["w_pipe", "w_set_inheritable", "w_make_standard_stream"], level="proof",
                 bounded_scenarios=[("c08_fd_audit", "2 x 48 descriptor tables read back from real children (/proc/$$/fd): single commands under all 8 inherit/pipe combinations alone and with three other Popens alive, 4 merge variants, every stage of 2..4-command pipelines run by join / capture / stream_stdout, 100 children spawned concurrently from four threads; all of it a second time in a parent whose descriptors 0 and 2 are closed; a child may hold 0, 1, 2 and nothing else")]),
-    "C09": dict(units=["pstate"], kani=["w_decode_exit_status", "w_waitpid"], level="proof"),
-    "C10": dict(units=["pstate"], kani=["w_kill", "w_waitpid"], level="proof"),
-    "C11": dict(units=["pstate"], kani=[], level="proof",
+    "C09": dict(units=["pstate"], kani=["w_decode_exit_status", "w_waitpid"], level="proof",
+                bounded_scenarios=[("c09_status_matrix", "298 children through the real crate: every exit code 0..255 through wait / wait_timeout / poll, 20 fatal signals with and without core dumps, a stopped child (never reported as finished), a child reaped behind the library's back; every later query in every order must repeat the status and pid() must be gone")]),
+    "C10": dict(units=["pstate"], kani=["w_kill", "w_waitpid"], level="proof",
+                bounded_scenarios=[("c10_signals", "5 children under strace -e trace=kill: terminate / send_signal(USR1, HUP, INT) / kill reach a trapping child as exactly those signals and nothing else is signalled; after the end was observed by wait / poll / wait_timeout (exit, SIGKILL, reaped elsewhere) the three calls return Ok and make no system call")]),
+    "C11": dict(units=["pstate"], kani=["w_waitpid"], level="proof",
                 bounded_scenarios=[("c11_status_checks", "one run under strace: 40 waits of 900 us, 10 of 2.5 ms, one of 250 ms and 20 polls on a live child; wait4 and nanosleep system calls are counted")]),
 }
 
@@ -186,3 +191,10 @@ KANI_TRUST = [
     "posix::check_err is stubbed under Kani by an equivalent reading the model's errno (std's errno is a private foreign call); posix::fcntl (C-variadic) is stubbed by a model",
     "<OwnedFd as Drop>::drop is stubbed by the model's close (Rust/std: dropping a File closes its descriptor)",
 ]
+
+
+# every property that lists a harness is served by it
+for _p, _P in PROPS.items():
+    for _h in _P.get("kani", []):
+        if _h in KANI and _p not in KANI[_h].setdefault("tags", []):
+            KANI[_h]["tags"].append(_p)
